@@ -46,6 +46,7 @@ type TLCRun struct {
 	Files    map[string][]byte // extra files to write in the scratch dir (traces)
 	KeepVars []string // if set, only these variables are parsed from each state
 	Collect  string   // glob (relative to the scratch dir) of files to return in TLCStats.Files
+	Parts    int      // >1: run this many TLC processes in parallel with constants NParts/Part (spec must support them)
 }
 
 type TLCStats struct {
@@ -61,6 +62,9 @@ type TLCStats struct {
 	ErrorTrace []string
 	Files      map[string][]byte
 }
+
+// modules whose Init understands the NParts / Part constants
+var partAware = map[string]bool{"MC_E1": true, "MC_Dec": true, "MC_C15": true}
 
 var reStats = regexp.MustCompile(`(\d+) states generated, (\d+) distinct states found`)
 var reDepth = regexp.MustCompile(`depth of the complete state graph search is (\d+)`)
@@ -127,6 +131,69 @@ func ParseState(raw string, keep []string) (State, error) {
 // `par` goroutines). It returns TLC's statistics. A non-nil error means the
 // run is unusable (exit 2 material), not a property violation.
 func (r TLCRun) Stream(par int, handle func(State)) (TLCStats, error) {
+	if r.Parts > 1 {
+		return r.streamParts(par, handle)
+	}
+	return r.streamOne(par, handle)
+}
+
+// streamParts runs r.Parts TLC processes over disjoint parts of the state space and merges them.
+func (r TLCRun) streamParts(par int, handle func(State)) (TLCStats, error) {
+	k := r.Parts
+	type res struct {
+		st  TLCStats
+		err error
+	}
+	out := make([]res, k)
+	var wg sync.WaitGroup
+	workers := (runtime.NumCPU() - 2) / k
+	if workers < 2 {
+		workers = 2
+	}
+	if par <= 0 {
+		par = runtime.NumCPU()
+	}
+	start := time.Now()
+	for i := 0; i < k; i++ {
+		wg.Add(1)
+		go func(i int) {
+			defer wg.Done()
+			ri := r
+			ri.Parts = 0
+			ri.Workers = workers
+			ri.Consts = map[string]string{}
+			for kk, v := range r.Consts {
+				ri.Consts[kk] = v
+			}
+			ri.Consts["NParts"] = strconv.Itoa(k)
+			ri.Consts["Part"] = strconv.Itoa(i)
+			ri.HeapGB = 4
+			out[i].st, out[i].err = ri.streamOne((par+k-1)/k, handle)
+		}(i)
+	}
+	wg.Wait()
+	var total TLCStats
+	var firstErr error
+	for _, o := range out {
+		total.Generated += o.st.Generated
+		total.Distinct += o.st.Distinct
+		total.Dumped += o.st.Dumped
+		if o.st.Depth > total.Depth {
+			total.Depth = o.st.Depth
+		}
+		if o.st.ErrorKind != "" && total.ErrorKind == "" {
+			total.ErrorKind, total.ErrorMsg = o.st.ErrorKind, o.st.ErrorMsg
+		}
+		total.Output += o.st.Output
+		if o.err != nil && firstErr == nil {
+			firstErr = o.err
+		}
+	}
+	total.Wall = time.Since(start)
+	return total, firstErr
+}
+
+func (r TLCRun) streamOne(par int, handle func(State)) (TLCStats, error) {
 	var stats TLCStats
 	start := time.Now()
 	scratch, err := os.MkdirTemp("", "vtlc-")
@@ -153,6 +220,15 @@ func (r TLCRun) Stream(par int, handle func(State)) (TLCStats, error) {
 	cfg := r.Cfg
 	if cfg == "" {
 		cfg = r.Module + ".cfg"
+	}
+	if partAware[r.Module] {
+		if r.Consts == nil {
+			r.Consts = map[string]string{}
+		}
+		if _, ok := r.Consts["NParts"]; !ok {
+			r.Consts["NParts"] = "1"
+			r.Consts["Part"] = "0"
+		}
 	}
 	if len(r.Consts) > 0 || len(r.ConstSubst) > 0 {
 		b, err := os.ReadFile(filepath.Join(scratch, cfg))
